@@ -91,7 +91,7 @@ def intCell (c : Nat) : Except Err Int :=
 def upsert (runs : List (Int × Dict)) (k : Int) (v : Dict) : List (Int × Dict) :=
   if runs.any (fun p => p.1 == k) then runs.map (fun p => if p.1 == k then (k, v) else p) else runs ++ [(k, v)]
 
-/-- the `i-id` of a response: `keys['i-id']`, else -1 (the `_i_id_map` branch is not modelled) -/
+/-- the `i-id` of a response: `keys['i-id']`, else -1 (the `_i_id_map` branch: see `augmentInput`) -/
 def iidCellOf (keys : Dict) : Nat := (dget keys "i-id").getD (encInt (-1))
 
 /-- `FieldMapper._map_parse`: the patch for the parse relation and the new `_parse_id` -/
@@ -268,14 +268,50 @@ def processInput (sch : Schema) (s : Suite) (sel : Option (String × String) := 
       | some t => .ok (ts.fields, abs t)
     | _, _ => .error .itsdbError
 
+/-- `FieldMapper(source=source)._i_id_map`: `dict(source.select_from('parse', ('parse-id', 'i-id'), cast=True))`
+(pairs in row order; as a dict the LAST pair of a parse-id wins) -/
+def iidMap (sch : Schema) (src : Suite) : List (Nat × Nat) :=
+  match tableIndex sch "parse", sch.find? (fun t => t.name == "parse") with
+  | some k, some ts =>
+    match src[k]? with
+    | none => []
+    | some t =>
+      let cp := ts.fields.findIdx (fun f => f.name == "parse-id")
+      let ci := ts.fields.findIdx (fun f => f.name == "i-id")
+      (abs t).map (fun r => (r.getD cp cNone, r.getD ci cNone))
+  | _, _ => []
+
+def mapLookup (m : List (Nat × Nat)) (k : Nat) : Option Nat := (m.reverse.find? (fun p => p.1 == k)).map (·.2)
+
+def hasKey (inFields : List FieldS) (n : String) : Bool := inFields.any (fun f => f.isKey && f.name == n)
+
+/-- the rule of `_map_parse` "`i-id` from the keys, else `_i_id_map[keys['parse-id']]`, else -1", expressed on the
+input rows: an input relation keyed by `parse-id` but not by `i-id` (the transfer / generate tasks) gets a
+synthetic last key column `i-id` holding the mapped id (or -1), which is what `iidCellOf ∘ keysOf` then reads -/
+def augmentInput (m : List (Nat × Nat)) (inFields : List FieldS) (items : List Row) : List FieldS × List Row :=
+  if hasKey inFields "i-id" || !hasKey inFields "parse-id" then (inFields, items)
+  else
+    let cp := inFields.findIdx (fun f => f.isKey && f.name == "parse-id")
+    (inFields ++ [⟨"i-id", true, true⟩],
+     items.map (fun r => r ++ [(mapLookup m (r.getD cp cNone)).getD (encInt (-1))]))
+
+/-- the inputs of a run: `source=None` — this suite's input relation, read after the affected relations were
+cleared; `source=q` — the input relation of ANOTHER suite (same schema), untouched by the clearing.  The
+`_i_id_map` comes from the source's parse relation as it is when `process` starts. -/
+def inputOf (sch : Schema) (s : Suite) (src : Option Suite) (sel : Option (String × String)) :
+    Except Err (List FieldS × List Row) :=
+  match processInput sch (match src with | none => clearAt s (affectedIdx sch) | some q => q) sel with
+  | .error e => .error e
+  | .ok (inFields, items) => .ok (augmentInput (iidMap sch (src.getD s)) inFields items)
+
 /-- `TestSuite.process(cpu, selector=sel)` for a scripted `parse` processor: input relation and column from
 the selector (default: the task selector; a bad one raises before anything is touched), affected relations
 cleared, THEN the items read up front (`list(source[input_table])`: an input relation that is itself one of
 the affected ones is already empty), every produced row added through `_add_row` (flush when more than `b` rows are pending),
 database written, tables reloaded. -/
 def processM (sch : Schema) (s : Suite) (b : Int) (g : Bool) (script : List Resp)
-    (sel : Option (String × String) := none) : Suite × Option Err :=
-  match processInput sch (clearAt s (affectedIdx sch)) sel with
+    (sel : Option (String × String) := none) (src : Option Suite := none) : Suite × Option Err :=
+  match inputOf sch s src sel with
   | .error e => (s, some e)
   | .ok (inFields, items) =>
     match producedGroups sch inFields script items with
@@ -296,8 +332,8 @@ def traceGroups (s : Suite) (b : Int) : List (List (Nat × Row)) → List Suite
 
 /-- what the `callback` of `process` sees at item 0, 1, …: one suite per processed item -/
 def processPhases (sch : Schema) (s : Suite) (b : Int) (script : List Resp)
-    (sel : Option (String × String) := none) : List Suite :=
-  match processInput sch (clearAt s (affectedIdx sch)) sel with
+    (sel : Option (String × String) := none) (src : Option Suite := none) : List Suite :=
+  match inputOf sch s src sel with
   | .error _ => []
   | .ok (inFields, items) =>
     let gs := (producedGroups sch inFields script items).1
